@@ -802,6 +802,21 @@ impl Server {
                             _ => {}
                         }
                         
+                        // These handlers write their replies into the connection themselves. What was
+                        // answered before them in this batch has to be in the buffer first, or it would
+                        // be overtaken (PING + SUBSCRIBE a in one segment: the acknowledgement before +PONG)
+                        if matches!(command.as_str(), "SUBSCRIBE" | "UNSUBSCRIBE" | "PSUBSCRIBE" | "PUNSUBSCRIBE" | "SYNC" | "PSYNC")
+                            && !responses.is_empty() {
+                            let earlier: Vec<RespFrame> = responses.drain(..).collect();
+                            self.connections.with_connection(id, |conn| {
+                                for response in &earlier {
+                                    if !matches!(response, RespFrame::NoResponse) {
+                                        let _ = conn.send_frame(response);
+                                    }
+                                }
+                            });
+                        }
+                        
                         // Handle QUIT command
                         if command == "QUIT" {
                             should_close = true;
